@@ -33,7 +33,13 @@ def main():
     if args:
         items = [it for it in items if any(a == it[0] or a == it[0] + "/" + it[1] or a == it[1] for a in args)]
     results = []
-    for prop, name, diff, props in items:
+    # scratch copies live at fresh paths, so every item adds a few hundred MB of build-cache entries that are never
+    # used again: keep them in a cache of their own and drop it regularly
+    stcache = "/tmp/verif-st-gocache-%d" % os.getpid()
+    os.environ["GOCACHE"] = stcache
+    for idx, (prop, name, diff, props) in enumerate(items):
+        if idx % 12 == 11:
+            shutil.rmtree(stcache, ignore_errors=True)
         scratch = tempfile.mkdtemp(prefix="verif-st-", dir="/tmp")
         try:
             sh("rsync -a --exclude .git /repo/ %s/" % scratch)
@@ -61,6 +67,7 @@ def main():
             shutil.rmtree(os.path.join(VERIF, ".work", "bin", tag), ignore_errors=True)
             shutil.rmtree(os.path.join(VERIF, ".work", "gen", tag), ignore_errors=True)
         print("%-5s %-40s %-8s %s" % results[-1], flush=True)
+    shutil.rmtree(stcache, ignore_errors=True)
     missed = [r for r in results if r[2] != "CAUGHT"]
     print("\n%d mutants, %d caught, %d not caught" % (len(results), len(results) - len(missed), len(missed)))
     return 1 if missed else 0
